@@ -19,3 +19,31 @@ func (v *VerifDLQWindow) Ack() { v.w.Ack() }
 
 // Nack wraps dlqWindow.Nack.
 func (v *VerifDLQWindow) Nack() bool { return v.w.Nack() }
+
+// VerifForceStopper exposes forceStopper (force_stop.go) to the verification harness.
+type VerifForceStopper struct{ f forceStopper }
+
+// Start wraps forceStopper.start; it returns a func reporting whether the returned context is
+// cancelled (without calling the context's own cancel func).
+func (v *VerifForceStopper) Start() func() bool {
+	ctx, _ := v.f.start() //nolint:govet // the cancel func is retained by the forceStopper under test
+	return func() bool { return ctx.Err() != nil }
+}
+
+// Stop wraps forceStopper.stop.
+func (v *VerifForceStopper) Stop() { v.f.stop() }
+
+// VerifPending calls f, while holding swapMu, with whether a live-reconfigure
+// request is currently staged (n.pending != nil). Read-only.
+func (n *ProcessorNode) VerifPending(f func(staged bool)) {
+	n.swapMu.Lock()
+	defer n.swapMu.Unlock()
+	f(n.pending != nil)
+}
+
+// VerifSetFiltered marks a message as already filtered (as an upstream
+// processor node would have done).
+func VerifSetFiltered(m *Message) { m.filtered = true }
+
+// VerifFiltered reports whether a message is marked filtered.
+func VerifFiltered(m *Message) bool { return m.filtered }
